@@ -1,7 +1,7 @@
 #!/bin/sh
 # usage: tools/regress_sel.sh C02 C15 ...   every stored mutant of the named properties against its check
 cd /verif
-for set in seeded seeded2 seeded3 seeded4 seeded5 seeded6 seeded7; do
+for set in seeded seeded2 seeded3 seeded4 seeded5 seeded6 seeded7 seeded8; do
   for p in "$@"; do
     d=$set/$p
     [ -d $d ] || continue
